@@ -431,11 +431,28 @@ def check(run):
         "first_match_disagreements_on_real_tree": len(prop_bad),
         "unexpected_core_shapes": len(shape_errors),
     }
+    # ---- end to end: the arm that runs in the emitted Go (after ANF, Go generation and dead-code elimination) --------
+    e2e_wits, e2e = [], {}
+    try:
+        import matrixgen
+        import semcheck
+
+        e2e_wits, e2e, _, _ = semcheck.run_semantic_check(run, "C06", 0, 0, with_corpus=False, extra_sources=matrixgen.sources(run, "c06", subset="match"), tag="c06e2e")
+    except Broken as b:
+        broken.append(b)
+    run.cov["correspondence"]["end_to_end_programs"] = e2e
+    run.cov["rule"] += (
+        "; end to end: every match-related cell of the position x feature matrix (integer, string, bool, enum, tuple and struct patterns, generic enums, matches whose value is discarded with arms that do nothing, "
+        "matches in every syntactic position) is run through Sem/Src.v on the typed tree and Sem/GoSem.v on the emitted Go; the arm that runs and what it binds must agree"
+    )
     run.cov["open_obligations"] = OPEN
     run.cov["programs"] = len(ms)
     run.cov["disagreements_checked"] = len(ms)
     run.assumptions = ["generic enums/structs (type application) are outside the model", "the typer delivers patterns annotated with the scrutinee component types (checked only through the differential run)"]
-    if prop_bad or hard_fail:
+    if e2e_wits and not (prop_bad or hard_fail):
+        for w in e2e_wits[:3]:
+            run.violation(w)
+    elif prop_bad or hard_fail:
         for i in (prop_bad or [h[0] for h in hard_fail])[:3]:
             w = describe(ms, i, res)
             w["kind"] = "first-match violated by the real decision tree" if prop_bad else "compiler failed on a pattern matrix"
